@@ -741,3 +741,71 @@ Proof.
     + apply detect_D; lia.
   - subst f. apply (G _ (sdmx_text_I s)); [apply from_sdmx_I | apply detect_I].
 Qed.
+
+(* ------------------------------------------------------------------ repr *)
+
+(* eval(repr(p)) on the structured term: the constructor named in the text applied to the integers in the text *)
+Theorem repr_roundtrip : forall p, sdmx_domain p ->
+  exists t, repr_term p = Ok t /\ eval_term t = Ok p.
+Proof.
+  intros [f s] D. destruct D as [[[R Y] | [E C]] | E]; cbn [p_freq p_serial] in *.
+  - destruct (accessors_vs_calendar_regular f s R) as (_ & _ & _ & _ & FY & _). cbv zeta in FY.
+    destruct (regular_cases f R) as [-> | [-> | [-> | ->]]]; eexists;
+      (split; [unfold repr_term, repr_pieces; cbn [p_freq p_serial]; freq_tests; reflexivity |]);
+      cbn [take_letters s2l list_ascii_of_string is_letter nat_of_ascii map piece_args concat app]; unfold eval_term;
+      try exact FY.
+    (* yearly: yy(year) *)
+    vm_compute (if list_eq_dec ascii_dec _ _ then true else false).
+    unfold from_year_segment. change (kind_of freq_YEARLY) with KReg. unfold gen_reg_from_year_segment, freq_YEARLY.
+    f_equal. f_equal. rewrite Z.div_1_r. lia.
+  - subst f. destruct (accessors_vs_calendar_daily s C) as (_ & _ & _ & _ & _ & _ & _ & FY).
+    pose proof (ord_ok_true s C) as O. rewrite <- ymd_of_ord_eta in FY.
+    eexists. split.
+    + unfold repr_term, repr_pieces. cbn [p_freq p_serial]. freq_tests. unfold gen_repr_DAILY. rewrite O. reflexivity.
+    + cbn [take_letters s2l list_ascii_of_string is_letter nat_of_ascii map piece_args concat app]. exact FY.
+  - subst f. eexists. split.
+    + unfold repr_term, repr_pieces. cbn [p_freq p_serial]. freq_tests. reflexivity.
+    + reflexivity.
+Qed.
+
+(* (year, segment) round trip for the calendar classes *)
+Theorem year_segment_roundtrip : forall p, in_domain p ->
+  exists y seg, to_year_segment p = Ok (y, seg) /\ from_year_segment (p_freq p) y seg = Ok p.
+Proof.
+  intros [f s] [[R Y] | [E C]]; cbn [p_freq p_serial] in *.
+  - destruct (accessors_vs_calendar_regular f s R) as (A & _ & _ & _ & B & _). eauto.
+  - subst f. destruct (accessors_vs_calendar_daily s C) as (_ & _ & A & _ & _ & _ & B & _). eauto.
+Qed.
+
+Theorem ymd_roundtrip : forall p pos, in_domain p ->
+  exists y m d, to_ymd pos p = Ok (y, m, d) /\ from_ymd (p_freq p) y m d = Ok p.
+Proof. intros p pos D. destruct (domain_date p pos D) as (y & m & d & A & _ & _ & B). eauto. Qed.
+
+Theorem pydate_roundtrip : forall p pos, in_domain p ->
+  exists t, to_pydate pos p = Ok t /\ from_pydate (p_freq p) t = Ok p.
+Proof.
+  intros [f s] pos [[R Y] | [E C]]; cbn [p_freq p_serial] in *.
+  - apply pydate_roundtrip_regular; assumption.
+  - subst f. apply pydate_roundtrip_daily; assumption.
+Qed.
+
+(* ------------------------------------------------------------------ non-vacuity *)
+
+Example codecs_examples :
+  in_domain (mkP 4 8082) /\ in_domain (mkP freq_DAILY 738000) /\ sdmx_domain (mkP freq_INTEGER (-5)) /\
+  finer 4 12 /\ finer 2 freq_DAILY /\ cal_freq 12 /\
+  to_sdmx (mkP 4 8082) = Ok (s2l "2020-Q3") /\ from_sdmx (s2l "2020-Q3") = Ok (mkP 4 8082) /\
+  to_sdmx (mkP freq_INTEGER (-5)) = Ok (s2l "(-5)") /\ from_sdmx (s2l "(-5)") = Ok (mkP freq_INTEGER (-5)) /\
+  to_iso PEnd (mkP 12 24241) = Ok (s2l "2020-02-29") /\ repr_str (mkP freq_DAILY 738000) = Ok (s2l "dd(2021,7,29)") /\
+  refrequent 12 PEnd (mkP 4 8082) = Ok (mkP 12 24248) /\ refrequent 4 PMiddle (mkP 12 24248) = Ok (mkP 4 8082).
+Proof.
+  assert (D1 : in_domain (mkP 4 8082)) by (left; split; [reflexivity | vm_compute; split; discriminate]).
+  assert (D2 : in_domain (mkP freq_DAILY 738000))
+    by (right; split; [reflexivity | unfold in_calendar, max_ordinal; cbn; lia]).
+  assert (D3 : sdmx_domain (mkP freq_INTEGER (-5))) by (right; reflexivity).
+  assert (F1 : finer 4 12) by (split; [reflexivity | left; split; reflexivity]).
+  assert (F2 : finer 2 freq_DAILY) by (split; [reflexivity | right; reflexivity]).
+  assert (C1 : cal_freq 12) by (left; reflexivity).
+  refine (conj D1 (conj D2 (conj D3 (conj F1 (conj F2 (conj C1 _)))))).
+  refine (conj _ (conj _ (conj _ (conj _ (conj _ (conj _ (conj _ _))))))); vm_compute; reflexivity.
+Qed.
